@@ -15,7 +15,7 @@ use crate::props::c14::make_cell;
 use crate::statejson::{line_shape, mol_shape, oshape_from_spec, Params, ShapeSpec};
 
 pub const TITLE: &str = "The hard-packing score is the true packing fraction, and never exceeds 1";
-pub const RULE: &str = "part shapes: regular n-gons 3..12, radial polygons (radii 0.2..1, n 3..12, any), circle, trimers over radius (0,1.5] x angle [0,180] x distance [0,2.5] including the CLI default, triple overlaps, containment and distance 0; oracle: area() against the shoelace area of the documented vertices / the vertical-decomposition area of the union of the documented discs (rel 1e-9). part cells: deserialised cells of all four families; area() = |A x B| (rel 1e-12). part states: one cell with a vector of sites (uniform and thin families of C01); for every state the harness's own tiling oracle finds overlap-free (worst gap > 1e-9) and the package scores: score = N_group * area_true / |A x B| (rel 1e-9) and 0 < score <= 1+1e-9, with N_group from the ITA table, the area from the harness's shape and the cell from the harness's lattice. part histories: real optimiser runs (1..12 loops, step sizes 1e-3..1, kT 0..0.5) behind a logging probe; every score the optimiser saw must equal N*area/|AxB| of the parameters it was computed from (rel 1e-9) — this is where a cached term that goes stale while one state object is modified would show. part shape-replaced: a state is scored, its public shape field is replaced, and it is scored again against the new shape's packing fraction. Non-trivial = shape with >= 1 overlapping disc pair, or an oblique cell (angle != pi/2), or N >= 2; distinct by hash of the numbers. Classes report {no overlap, pair overlap, triple overlap, containment, distance 0} for disc shapes.";
+pub const RULE: &str = "part shapes: regular n-gons 3..12, radial polygons (radii 0.2..1, n 3..12, any), circle, trimers over radius (0,1.5] x angle [0,180] x distance [0,2.5] including the CLI default, triple overlaps, containment and distance 0; oracle: area() against the shoelace area of the documented vertices / the vertical-decomposition area of the union of the documented discs (rel 1e-9). part cells: deserialised cells of all four families; area() = |A x B| (rel 1e-12). part states: one cell with a vector of sites (uniform and thin families of C01); for every state the harness's own tiling oracle finds overlap-free (worst gap > 1e-9) and the package scores: score = N_group * area_true / |A x B| (rel 1e-9) and 0 < score <= 1+1e-9, with N_group from the ITA table, the area from the harness's shape and the cell from the harness's lattice. part histories: real optimiser runs (1..12 loops, step sizes 1e-3..1, kT 0..0.5) behind a logging probe; every score the optimiser saw must equal N*area/|AxB| of the parameters it was computed from (rel 1e-9) — this is where a cached term that goes stale while one state object is modified would show. part shape-replaced: a state is scored, its public shape field is replaced, and it is scored again against the new shape's packing fraction. Non-trivial = shape with >= 1 overlapping disc pair, or an oblique cell (angle != pi/2), or N >= 2; distinct by hash of the numbers. Classes report {no overlap, pair overlap, triple overlap, containment, distance 0} for disc shapes. part multi-site: states with 2..4 occupied sites (initialise); a scored, clearly valid state must score (sites x order) x area / |AxB|. part golden: the 400 hard structures stored in /verif/golden/hard.json (text written by the pinned package, 1..3 sites) are re-read; every one that still deserialises and is clearly valid must score its packing fraction.";
 
 pub fn assumptions() -> Vec<&'static str> {
     vec![
@@ -406,6 +406,90 @@ fn single_site(c: &TilingCase, fails: &dyn Fn(&TilingCase) -> bool) -> TilingCas
     c.clone()
 }
 
+// ------------------------------------------------------------------------------------------------
+// multi-site: 2..4 occupied sites; the fraction counts every placed copy
+
+fn multi_oracle(c: &crate::multisite::MultiSpec, rec: &Rec, _: &Ctx) -> Result<(), String> {
+    let (score, os_built, total) = crate::multisite::hard_score(c)?;
+    if !oshape_usable(&os_built) {
+        rec.class("skipped-shape");
+        return Ok(());
+    }
+    let score = match score {
+        Some(s) => s,
+        None => {
+            rec.class("rejected");
+            return Ok(());
+        }
+    };
+    let lat = c.lattice();
+    let copies = c.copies();
+    let worst = geom::worst_pair(&os_built, &lat, &copies).map(|w| w.gap).unwrap_or(f64::INFINITY);
+    if !(worst > 1e-9) {
+        rec.class("scored-but-not-clearly-valid");
+        return Ok(());
+    }
+    rec.eval(1);
+    let area_true = oshape_from_spec(&c.shape).area();
+    let n = copies.len() as f64;
+    let want = n * area_true / lat.area();
+    if !((score - want).abs() <= 1e-9 * want && score > 0. && score <= 1. + 1e-9) {
+        return Err(format!("score() = {} but N*area/|AxB| = {}*{}/{} = {} for a state with {} occupied sites reporting {} shapes (shape {:?}, {})", score, n, area_true, lat.area(), want, c.sites.len(), total, c.shape, c.describe()));
+    }
+    let class = format!("valid/{}sites/N={}", c.sites.len(), n);
+    rec.class(&class);
+    rec.nontrivial(crate::engine::hash_json(&serde_json::to_value(c).unwrap()));
+    if rec.wants_sample(&class) {
+        rec.sample(&class, || serde_json::json!({"case": c, "score": score}));
+    }
+    Ok(())
+}
+
+// ------------------------------------------------------------------------------------------------
+// golden: structures written by the pinned version, re-read from their stored text
+
+fn golden_judge(e: &crate::golden::GoldenEntry, rec: &Rec, _: &Ctx) -> Result<(), String> {
+    use packing::traits::State;
+    let c = &e.spec;
+    let (score, os_built, total) = match e.kind.as_str() {
+        "HardLine" => match serde_json::from_str::<packing::PackedState<packing::LineShape>>(&e.text) {
+            Ok(s) => (s.score(), crate::statejson::oshape_of_line(&s.shape), s.total_shapes()),
+            Err(_) => {
+                rec.class("unreadable");
+                return Ok(());
+            }
+        },
+        _ => match serde_json::from_str::<packing::PackedState<packing::MolecularShape2>>(&e.text) {
+            Ok(s) => (s.score(), crate::statejson::oshape_of_mol(&s.shape), s.total_shapes()),
+            Err(_) => {
+                rec.class("unreadable");
+                return Ok(());
+            }
+        },
+    };
+    rec.eval(1);
+    let lat = c.lattice();
+    let copies = c.copies();
+    let os_doc = oshape_from_spec(&c.shape);
+    if !oshape_usable(&os_built) || !oshape_usable(&os_doc) {
+        rec.class("skipped-shape");
+        return Ok(());
+    }
+    let worst = geom::worst_pair(&os_doc, &lat, &copies).map(|w| w.gap).unwrap_or(f64::INFINITY);
+    if !(worst > 1e-9) {
+        rec.class("not-clearly-valid");
+        return Ok(());
+    }
+    let want = copies.len() as f64 * os_doc.area() / lat.area();
+    match score {
+        Some(s) if (s - want).abs() <= 1e-9 * want => {}
+        other => return Err(format!("the stored structure reads back but score() = {:?}; it describes {} non-overlapping copies with packing fraction {} (reported shapes {}, {})", other, copies.len(), want, total, c.describe())),
+    }
+    rec.class(&format!("{}/{}sites", e.kind, c.sites.len()));
+    rec.nontrivial(crate::engine::hash_json(&serde_json::to_value(c).unwrap()));
+    Ok(())
+}
+
 pub fn parts() -> Vec<PartDef> {
     vec![
         part("shapes", 3_000_000, 60_000_000, shape_strat, shape_oracle),
@@ -413,5 +497,7 @@ pub fn parts() -> Vec<PartDef> {
         part_min("states", 200_000, 4_000_000, |_| crate::props::c01::state_family_strat(), state_oracle, single_site),
         part("histories", 1_500, 45_000, |_| crate::props::c01::history_strat(), history_oracle),
         part("shape-replaced", 60_000, 1_500_000, replace_strat, replace_oracle),
+        part("multi-site", 200_000, 6_000_000, |_| crate::multisite::multi_strat(prop_oneof![crate::gen::line_shape_spec(), crate::gen::mol_shape_spec()].boxed(), 0.02, 0.6, 2, 4), multi_oracle),
+        crate::golden::golden_part("golden", "hard.json", golden_judge),
     ]
 }
